@@ -10,7 +10,7 @@ record  = id|phen|pat|idx|hist   hist = g=e.e;g=e   event = id:ts:kind:data   (`
 from bobocep.cep.engine.decider.runserial import BoboRunSerial
 from bobocep.cep.event import BoboEventSimple, BoboEventComplex, BoboEventAction, BoboHistory
 from bobocep.cep.phenom.pattern.pattern import BoboPattern, BoboPatternBlock
-from bobocep.cep.phenom.pattern.predicate import BoboPredicateCall
+from bobocep.cep.phenom.pattern.predicate import BoboPredicateCall, BoboPredicateCallType
 from bobocep.cep.phenom.phenom import BoboPhenomenon
 
 
@@ -18,7 +18,7 @@ class PredRaise(Exception):
     pass
 
 
-RAISES = [PredRaise, StopIteration, AttributeError, IndexError]
+RAISES = [PredRaise, StopIteration, AttributeError, IndexError, TypeError, ValueError]
 
 
 class Num:
@@ -74,6 +74,19 @@ OPAQUE = {'on': False}
 FEEDBACK = {'names': None}
 
 
+def val(x):
+    """the number an event carries.  A source may send it as the FIRST member of a record (`box`): the reading first, then
+    whatever else it reports -- members of such a record keep the order they were sent in"""
+    if type(x) is dict and x:
+        return x[next(iter(x))]
+    return x
+
+
+def box(d, k=0):
+    """the datum as a record whose first member is the reading (member names are NOT in alphabetical order)"""
+    return {'v': d, 'unit': 'C', 'a': k, 'nested': {'z': 1, 'b': [d]}}
+
+
 def kind_of(e):
     if isinstance(e, BoboEventComplex):
         return 'c'
@@ -88,8 +101,8 @@ def mk_pred_fn(toks):
         return lambda e, h: True
     if op in ('eq', 'ne', 'lt', 'gt') and len(toks) == 2:
         k = int(toks[1])
-        return {'eq': lambda e, h: e.data == k, 'ne': lambda e, h: e.data != k,
-                'lt': lambda e, h: e.data < k, 'gt': lambda e, h: e.data > k}[op]
+        return {'eq': lambda e, h: val(e.data) == k, 'ne': lambda e, h: val(e.data) != k,
+                'lt': lambda e, h: val(e.data) < k, 'gt': lambda e, h: val(e.data) > k}[op]
     if op == 'kind' and len(toks) == 2:
         k = toks[1]
         return lambda e, h: kind_of(e) == k
@@ -97,7 +110,7 @@ def mk_pred_fn(toks):
         n = int(toks[1])
         return lambda e, h: h.size() < n
     if op == 'gtmax' and len(toks) == 1:
-        return lambda e, h: all(e.data > x.data for x in h.all_events())
+        return lambda e, h: all(val(e.data) > val(x.data) for x in h.all_events())
     if op == 'grplt' and len(toks) == 3:
         g = '' if toks[1] == '~' else toks[1]
         n = int(toks[2])
@@ -110,12 +123,12 @@ def mk_pred_fn(toks):
         inner = mk_pred_fn(toks[2:])
 
         def f(e, h):
-            if e.data == k:
-                # the class varies with k: some exception classes have a meaning of their own to the interpreter
+            if val(e.data) == k:
+                # the class varies with k and the event's time: some exception classes have a meaning of their own to the interpreter
                 # (StopIteration ends an iterator, AttributeError / IndexError are swallowed by getattr-with-default and
                 # by the sequence-iteration protocol) and a rewrite of the calling code may let one of them be taken
                 # for something else than "the predicate raised"
-                raise RAISES[k % len(RAISES)](k)
+                raise RAISES[(k + (e.timestamp if isinstance(e.timestamp, int) else 0)) % len(RAISES)](k)
             return inner(e, h)
         return f
     raise ValueError('bad predicate ' + ':'.join(toks))
@@ -124,14 +137,44 @@ def mk_pred_fn(toks):
 _SHARED = {'on': False, 'cache': {}}
 
 
+_JUNK = BoboEventSimple('junk', -1, -777)
+
+
+def _poking(fn):
+    """a user's predicate that WORKS ON ITS COPY of the history before it decides (adds the candidate to the dictionary
+    `history.events` gave it, empties a group's list): `events` hands out a copy, so nothing of that may reach the run"""
+    def f(e, h):
+        view = h.events
+        for g in list(view):
+            view[g].append(e)
+            view[g].insert(0, _JUNK)
+        view['poked'] = [e, _JUNK]
+        view2 = h.events
+        if 'poked' in view2 or any(_JUNK in v for v in view2.values()):
+            raise AssertionError('history.events handed out the same dictionary twice')
+        return fn(e, h)
+    return f
+
+
 def mk_pred(s):
     # inside one configuration the same predicate text is ONE predicate object, as in user code that defines a predicate
     # once and uses it in several blocks / patterns / phenomena (whatever a predicate object remembers is then shared)
     if _SHARED['on']:
         if s not in _SHARED['cache']:
-            _SHARED['cache'][s] = BoboPredicateCall(mk_pred_fn(s.split(':')))
+            _SHARED['cache'][s] = _wrap_pred(s)
         return _SHARED['cache'][s]
-    return BoboPredicateCall(mk_pred_fn(s.split(':')))
+    return _wrap_pred(s)
+
+
+def _wrap_pred(s):
+    # where the stream carries numbers that are not `int` objects (OPAQUE), every third predicate is the library's TYPED
+    # predicate for int: on a plain int it runs as it is, on a `Num` it runs on the event cast to int — the same verdict,
+    # and an exception the user's function raises (TypeError and ValueError included: those are also what a failed cast
+    # raises) is the user's exception on either path
+    fn = _poking(mk_pred_fn(s.split(':')))
+    if OPAQUE['on'] and sum(map(ord, s)) % 3 == 0:
+        return BoboPredicateCallType(fn, int)
+    return BoboPredicateCall(fn)
 
 
 def grp(s):
@@ -159,10 +202,17 @@ def _mk_pattern(spec):
         blocks.append(BoboPatternBlock(
             predicates=[mk_pred(p) for p in preds], group=grp(g),
             strict=fl[0] == '1', loop=fl[1] == '1', negated=fl[2] == '1', optional=fl[3] == '1'))
-    return BoboPattern(name=spec['name'], blocks=blocks,
-                       preconditions=[mk_pred(p) for p in spec.get('pre', [])],
-                       haltconditions=[mk_pred(p) for p in spec.get('halt', [])],
-                       singleton=bool(spec.get('singleton', False)))
+    pre = [mk_pred(p) for p in spec.get('pre', [])]
+    halt = [mk_pred(p) for p in spec.get('halt', [])]
+    pat = BoboPattern(name=spec['name'], blocks=blocks, preconditions=pre, haltconditions=halt,
+                      singleton=bool(spec.get('singleton', False)))
+    # the caller goes on using ITS lists (to build the next, longer pattern): the pattern is what it was built from
+    blocks.append(BoboPatternBlock(predicates=[BoboPredicateCall(lambda e, h: True)], group='late', strict=False, loop=True,
+                                   negated=False, optional=False))
+    blocks.insert(0, blocks[-1])
+    pre.append(BoboPredicateCall(lambda e, h: False))
+    halt.append(BoboPredicateCall(lambda e, h: True))
+    return pat
 
 
 def mk_phenomena(phens, action=None, datagen=None):
@@ -209,7 +259,7 @@ def mk_event(eid, ts, kind, data):
 
 
 def show_event(e):
-    return f'{e.event_id}:{e.timestamp}:{kind_of(e)}:{e.data}'
+    return f'{e.event_id}:{e.timestamp}:{kind_of(e)}:{val(e.data)}'
 
 
 def show_hist(h):
@@ -232,7 +282,12 @@ def parse_hist(s):
             name, evs = g.split('=')
             d[grp(name)] = [mk_event(x.split(':')[0], int(x.split(':')[1]), x.split(':')[2], int(x.split(':')[3]))
                             for x in evs.split('.')]
-    return BoboHistory(d)
+    h = BoboHistory(d)
+    # the caller goes on using ITS dictionary and lists (a history is a snapshot of what it was given)
+    for g in list(d):
+        d[g].append(_JUNK)
+    d['later'] = [_JUNK]
+    return h
 
 
 def parse_rec(s, through_wire=True):
